@@ -376,7 +376,7 @@ def _owner_at(segs, b, case):
 
 def r4_reader(ctx, chk, rule="C11.4"):
     f = ctx.func("conditionalrewards.py::read_dict_from_file")
-    sx = SymX(ctx, f, inline_depth=0).run()
+    sx = SymX(ctx, f, inline_depth=2).run()
     ret = sx.ret
     fname = ("v", f.params[0])
     evals = [t for t in C02._sub(ret) + [x for e in sx.final.effects for x in C02._sub(e)] if t[0] == "call" and t[1] == "eval"]
